@@ -5,6 +5,7 @@ import (
 	"encoding/json"
 	"fmt"
 	"reflect"
+	"sort"
 	"strings"
 
 	"verif/oas"
@@ -69,8 +70,9 @@ func modeJSON(c *Ctx) {
 		s := c.Doc.Schema(ts.Schema)
 		kind := oas.Kind(s)
 		// ---------- C06 / C07: values -> JSON -> values
-		g := &Gen{Rng: c.Rng, Doc: c.Doc, Boundary: true}
+		g := &Gen{Rng: c.Rng, Doc: c.Doc, Boundary: true, FieldKeys: true}
 		for i := 0; i < nvals; i++ {
+			g.Zeroish = i < 4 // the first values are the "nothing there" look-alikes
 			v := g.Value(ts.Type, s, 0)
 			if isWrapper(ts.Type) {
 				// a top-level wrapper must be set to be encodable as a document
@@ -124,6 +126,11 @@ func modeJSON(c *Ctx) {
 				default:
 					c.Stat("second_opinion_only_mine_rejects", 1)
 				}
+			}
+			// map entries appear under their own keys: every key of every
+			// additional-properties map of the value is an object key of the document
+			if missing := missingMapKeys(v, dv); len(missing) > 0 {
+				c.Viol("map-entry-missing", "an additional-properties entry of the value does not appear in the encoded JSON ["+ts.Name+"]", in, missing, string(bs))
 			}
 			var und []string
 			jv.UndeclaredKeys(dv, ts.Schema, "$", &und, 0)
@@ -295,4 +302,76 @@ func (c *Ctx) jsonRequestBodies() {
 			}
 		}
 	}
+}
+
+// missingMapKeys lists the string keys of all maps inside v that are no
+// object key anywhere in the decoded document.
+func missingMapKeys(v reflect.Value, doc any) []string {
+	have := map[string]bool{}
+	var walkDoc func(d any)
+	walkDoc = func(d any) {
+		switch t := d.(type) {
+		case map[string]any:
+			for k, e := range t {
+				have[k] = true
+				walkDoc(e)
+			}
+		case *jobj:
+			for _, k := range t.keys {
+				have[k] = true
+				walkDoc(t.vals[k])
+			}
+		case []any:
+			for _, e := range t {
+				walkDoc(e)
+			}
+		}
+	}
+	walkDoc(doc)
+	var missing []string
+	var walk func(v reflect.Value, depth int)
+	walk = func(v reflect.Value, depth int) {
+		if !v.IsValid() || depth > 12 {
+			return
+		}
+		switch v.Kind() {
+		case reflect.Struct:
+			if v.Type() == timeType {
+				return
+			}
+			if isWrapper(v.Type()) {
+				if v.Field(0).Bool() {
+					walk(v.Field(1), depth+1)
+				}
+				return
+			}
+			for i := 0; i < v.NumField(); i++ {
+				walk(v.Field(i), depth+1)
+			}
+		case reflect.Map:
+			if v.Type().Key().Kind() != reflect.String {
+				return
+			}
+			for _, k := range v.MapKeys() {
+				if !have[k.String()] {
+					missing = append(missing, k.String())
+				}
+				walk(v.MapIndex(k), depth+1)
+			}
+		case reflect.Slice:
+			if v.Type() == rawType || v.Type().Elem().Kind() == reflect.Uint8 {
+				return
+			}
+			for i := 0; i < v.Len(); i++ {
+				walk(v.Index(i), depth+1)
+			}
+		case reflect.Pointer, reflect.Interface:
+			if !v.IsNil() {
+				walk(v.Elem(), depth+1)
+			}
+		}
+	}
+	walk(v, 0)
+	sort.Strings(missing)
+	return missing
 }
